@@ -9,10 +9,11 @@ os.makedirs(outdir, exist_ok=True)
 for l in open("/verif/properties.jsonl"):
     p = json.loads(l); pid = p["id"]
     prev = []
-    for s in "abcdefghijklmnopqrstuvwxyz":
-        mp = "/verif/seeded/%s-%s/meta.json" % (pid, s)
-        if os.path.exists(mp):
-            prev.append(json.load(open(mp)).get("summary", "")[:200])
+    import glob
+    for mp in sorted(glob.glob("/verif/seeded/%s-*/meta.json" % pid)):
+        if "-fix-" in mp:
+            continue
+        prev.append(json.load(open(mp)).get("summary", "")[:200])
     out = "%s/out-%s" % (outdir, pid); os.makedirs(out, exist_ok=True)
     t = tmpl.replace("__WT__", "%s/%s" % (wtroot, pid)).replace("__OUT__", out).replace("__PROP__", json.dumps(p, indent=1))
     t = t.replace('call them "a" and "b"', 'call them "%s" and "%s"' % (l1, l2)).replace("for each of a and b, in %s/a and %s/b" % (out, out), "for each of %s and %s, in %s/%s and %s/%s" % (l1, l2, out, l1, out, l2)).replace("a short summary of a and b", "a short summary of %s and %s" % (l1, l2))
